@@ -20,18 +20,26 @@ type FieldDescriptor struct {
 	Constraints Constraints `json:"constraints"`
 }
 
-func (d *FieldDescriptor) cast() string {
+func (d *FieldDescriptor) castType() (string, error) {
 	switch d.Type {
 	case "int", "int8", "int16", "int32", "int64", "time.Time":
-		return "int64"
+		return "int64", nil
 	case "uint", "uint8", "uint16", "uint32", "uint64":
-		return "uint64"
+		return "uint64", nil
 	case "float32", "float64":
-		return "float64"
+		return "float64", nil
 	case "string":
-		return d.Type
+		return d.Type, nil
 	default:
+		return "", fmt.Errorf("%w %s", ErrUnknownKeyType, d.Type)
+	}
+}
+
+func (d *FieldDescriptor) cast() string {
+	if c, err := d.castType(); err != nil {
 		panic(fmt.Sprintf("unkwnown type to cast %s", d.Type))
+	} else {
+		return c
 	}
 }
 
